@@ -12,6 +12,11 @@ package main
 //                                     Proxy.call that mention len(args) (object/proxy.go); the function
 //                                     vm.Run creates its machine with (vm/run.go); the condition under
 //                                     which getTypeConverter wraps a kind converter in a namedConverter
+//   converter state                   per converter struct type the types of its fields (a converter
+//                                     is shared by every conversion of its Go type in the process:
+//                                     what it may keep between two conversions is what its fields can
+//                                     hold); the first statement of StructConverter.To's `case *Map`
+//                                     (where the struct that is filled comes from)
 
 import (
 	"bytes"
@@ -73,9 +78,28 @@ func init() {
 		fromIfs := map[string][]string{}
 		var arrayToIfs, asObjectsCases []string
 		var lookupOrder, declaredTypeConds []string
+		convFields := map[string][]string{}
+		structMapAlloc := "-"
 		for _, d := range f.Decls {
 			switch d := d.(type) {
 			case *ast.GenDecl:
+				for _, sp := range d.Specs {
+					if ts, ok := sp.(*ast.TypeSpec); ok && strings.HasSuffix(ts.Name.Name, "Converter") {
+						if st, ok := ts.Type.(*ast.StructType); ok {
+							tys := []string{}
+							for _, fl := range st.Fields.List {
+								n := len(fl.Names)
+								if n == 0 {
+									n = 1 // embedded field
+								}
+								for k := 0; k < n; k++ {
+									tys = append(tys, c08Src(fset, fl.Type))
+								}
+							}
+							convFields[ts.Name.Name] = tys
+						}
+					}
+				}
 				for _, sp := range d.Specs {
 					vs, ok := sp.(*ast.ValueSpec)
 					if !ok || len(vs.Names) != 1 || len(vs.Values) != 1 {
@@ -185,6 +209,18 @@ func init() {
 					if recv == "ArrayConverter" {
 						arrayToIfs = c08IfConds(fset, d.Body)
 					}
+					if recv == "StructConverter" {
+						ast.Inspect(d.Body, func(n ast.Node) bool {
+							cc, ok := n.(*ast.CaseClause)
+							if !ok || len(cc.List) != 1 || c08Src(fset, cc.List[0]) != "*Map" {
+								return true
+							}
+							if len(cc.Body) > 0 {
+								structMapAlloc = c08Src(fset, cc.Body[0])
+							}
+							return false
+						})
+					}
 					// what is returned for an *Int object
 					ast.Inspect(d.Body, func(n ast.Node) bool {
 						cc, ok := n.(*ast.CaseClause)
@@ -282,6 +318,19 @@ func init() {
 		s += "def asObjectsCases : List String := " + c08_leanStrs(asObjectsCases) + "\n\n"
 		s += "/-- object/proxy.go `Proxy.call`: the `if` conditions that mention len(args) -/\n"
 		s += "def callArgConds : List String := " + c08_leanStrs(callArgConds) + "\n\n"
+		var cfNames []string
+		for k := range convFields {
+			cfNames = append(cfNames, k)
+		}
+		sort.Strings(cfNames)
+		cfParts := make([]string, len(cfNames))
+		for i, k := range cfNames {
+			cfParts[i] = fmt.Sprintf("(%q, %s)", k, c08_leanStrs(convFields[k]))
+		}
+		s += "/-- per converter struct type of object/typeconv.go: the types of its fields, in source order -/\n"
+		s += "def converterFieldTypes : List (String × List String) :=\n  [" + strings.Join(cfParts, ",\n  ") + "]\n\n"
+		s += "/-- `StructConverter.To`, `case *Map`: its first statement (where the struct it fills comes from) -/\n"
+		s += "def structMapAlloc : String := " + fmt.Sprintf("%q", structMapAlloc) + "\n\n"
 		s += "/-- vm/run.go `Run`: the function its first call goes to (what creates the machine) -/\n"
 		s += "def runCreatesWith : String := " + fmt.Sprintf("%q", runCreates) + "\n\n"
 		s += "end Risor.Generated.C08\n"
